@@ -711,6 +711,36 @@ fn native_spec() {
             }
             Err(e) => println!("SPEC-REPLAY MISMATCH target={target} case=p -t -s v -u x -c: rejected {:?}", e.kind()),
         }
+        // every action opens its occurrence through the parser (override removal): a later occurrence of an argument
+        // that overrides another - whatever its action - removes the other's earlier occurrence
+        for action in ["count", "settrue", "setfalse", "set", "append"] {
+            for declared_on_later in [false, true] {
+                let mut later = Arg::new("later").short('l');
+                later = match action {
+                    "count" => later.action(ArgAction::Count),
+                    "settrue" => later.action(ArgAction::SetTrue),
+                    "setfalse" => later.action(ArgAction::SetFalse),
+                    "set" => later.action(ArgAction::Set).require_equals(true).num_args(0..=1).default_missing_value("d"),
+                    _ => later.action(ArgAction::Append).require_equals(true).num_args(0..=1).default_missing_value("d"),
+                };
+                let mut earlier = Arg::new("earlier").short('e').action(ArgAction::SetTrue);
+                if declared_on_later {
+                    later = later.overrides_with("earlier");
+                } else {
+                    earlier = earlier.overrides_with("later");
+                }
+                let cmd = Command::new("p").arg(later).arg(earlier);
+                match cmd.try_get_matches_from(["p", "-e", "-l"]) {
+                    Ok(m) => {
+                        if m.get_flag("earlier") || m.value_source("later") != Some(crate::parser::ValueSource::CommandLine) {
+                            println!("SPEC-REPLAY MISMATCH target={target} case=-e -l, `later` ({action}) overrides `earlier` (declared on {}): earlier={} later source={:?}",
+                                if declared_on_later { "later" } else { "earlier" }, m.get_flag("earlier"), m.value_source("later"));
+                        }
+                    }
+                    Err(e) => println!("SPEC-REPLAY MISMATCH target={target} case=-e -l, `later` ({action}) overrides `earlier` (declared on {}): rejected as {:?}", if declared_on_later { "later" } else { "earlier" }, e.kind()),
+                }
+            }
+        }
         // a value that fails to parse is an error, nothing of it is reported
         match cmd.try_get_matches_from(["p", "--n", "7", "--n", "x7"]) {
             Err(e) if e.kind() == ErrorKind::ValueValidation => {}
